@@ -154,11 +154,13 @@ def prepare(qv, spec):
         elif spec.get("stale_first") and spec.get("stale"):
             # the cancelled variables enter first, so they hold the *lowest* integers of the mapping
             model = gen.cls_of(qv, kind)()
-            for k in spec["stale"]:
+            # (a label of its own, so that at least one variable really drops out of every term)
+            ghost = [("zz_ghost",)] if kind in gen.LABELLED_KINDS else []
+            for k in ghost + [tuple(k) for k in spec["stale"]]:
                 model[tuple(k)] += 1
             for k, v in terms:
                 model[tuple(k)] += v
-            for k in spec["stale"]:
+            for k in ghost + [tuple(k) for k in spec["stale"]]:
                 model[tuple(k)] -= 1
             spec = dict(spec, stale=[])
         else:
